@@ -39,9 +39,9 @@ Dom(d, s) ==
       n == DimNames[d]
   IN
   CASE n = "envcc"   -> IF q THEN EnvCC \ QuickSkip ELSE EnvCC
-    [] n = "dgp"     -> IF q THEN {"none", "all"} ELSE IF t THEN {"none", "lo", "alt", "all"}
+    [] n = "dgp"     -> IF q THEN {"none", "all"} ELSE IF t THEN {"none", "lo", "all"}
                         ELSE {"none", "lo", "hi", "alt", "odd", "all", "pres"}
-    [] n = "dvec"    -> IF q THEN {"none", "all"} ELSE IF t THEN {"none", "lo", "all"}
+    [] n = "dvec"    -> IF q \/ t THEN {"none", "all"}
                         ELSE {"none", "lo", "hi", "alt", "all", "all32"}
     [] n = "extras"  -> IF IsA64(s) THEN {"none"}
                         ELSE IF q THEN {"none", "cust1"} ELSE IF t THEN {"none", "cust1", "cust2", "cust4"}
@@ -49,12 +49,12 @@ Dom(d, s) ==
     [] n = "ls"      -> IF q THEN {0, 40} ELSE IF t THEN {0, 8, 4104} ELSE {0, 1, 8, 24, 40, 4096, 4104, 65528}
     [] n = "la"      -> IF q THEN {0, 64} ELSE IF t THEN {0, 8, 32} ELSE {0, 1, 4, 8, 16, 32, 64}
     [] n = "cs"      -> IF q THEN {0, 32} ELSE IF t THEN {0, 40} ELSE {0, 8, 32, 100}
-    [] n = "ca"      -> IF q THEN {0} ELSE IF t THEN {0, 32} ELSE {0, 16, 32, 64}
+    [] n = "ca"      -> IF q \/ t THEN {0} ELSE {0, 16, 32, 64}
     [] n = "fp"      -> {0, 1}
     [] n = "avx"     -> IF IsA64(s) THEN {0} ELSE IF q THEN {0, 1} ELSE {0, 1, 2}
-    [] n = "cleanup" -> IF IsA64(s) \/ q THEN {<<0, 0>>} ELSE IF t THEN {<<0, 0>>, <<1, 2>>}
+    [] n = "cleanup" -> IF IsA64(s) \/ q \/ t THEN {<<0, 0>>}
                         ELSE {<<0, 0>>, <<1, 0>>, <<0, 1>>, <<0, 2>>, <<1, 2>>}       \* <<emms, vzeroupper mode>>
-    [] n = "nargs"   -> IF q THEN {10} ELSE IF t THEN {0, 10} ELSE {0, 3, 10, 14}
+    [] n = "nargs"   -> IF q \/ t THEN {10} ELSE {0, 3, 10, 14}
     [] n = "sa"      -> (IF s[9] = 1 THEN {255, 254} ELSE {255})
                         \cup (IF IsA64(s) \/ q THEN {} ELSE IF t THEN {0} ELSE {0, 3, 6})
                         \* stack-arguments base register: 255 = let the frame decide; 254 = the frame pointer (what
